@@ -176,7 +176,8 @@ pub fn run_check(def: &CheckDef, cfg: &RunConfig) -> i32 {
 
     std::thread::scope(|scope| {
         for _ in 0..cfg.threads {
-            scope.spawn(|| {
+            let builder = std::thread::Builder::new().stack_size(64 << 20);
+            let _ = builder.spawn_scoped(scope, || {
                 loop {
                     if stop.load(Ordering::Relaxed) || Instant::now() > deadline {
                         break;
